@@ -725,6 +725,68 @@ def matching_rules(t, tup):
     return sum(1 for r in t["rules"] if all(entry_matches(s, v) for s, v in zip(r["spec"], tup)))
 
 
+SPACINGS = ["  ", "   ", "\t", " \t ", "\u00a0", "\u00a0 ", " \u2003"]
+
+
+def space_strings(t, rng):
+    """Rewrites every string value of the table into one whose white space is significant (a run of blanks, a tab, a no-break
+    space inside it, a blank at its start or end) - consistently in entries, specs, allowed / output values and pools, so that
+    the table means the same with the new strings. XML path only (`raw` writer): a drawing cannot carry such cells."""
+    used = set()
+    m = {}
+
+    def mapped(sv):
+        if sv not in m:
+            for _ in range(50):
+                k = rng.random()
+                sp = rng.choice(SPACINGS)
+                if k < 0.5 and len(sv) >= 2:
+                    j = rng.randint(1, len(sv) - 1)
+                    new = sv[:j] + sp + sv[j:]
+                elif k < 0.7:
+                    new = rng.choice([" ", "  ", "\t"]) + sv
+                elif k < 0.9:
+                    new = sv + rng.choice([" ", "  ", "\t", "\u00a0"])
+                else:
+                    new = sv + sp + "x"
+                if new not in used and " ".join(new.split()) != new:
+                    break
+            used.add(new)
+            m[sv] = new
+        return m[sv]
+
+    def tok(x):
+        # tokens: "s"   "s",   not("s",   "s")   (string literals never contain a quote)
+        if '"' not in x:
+            return x
+        a = x.index('"')
+        b = x.rindex('"')
+        return x[:a + 1] + mapped(x[a + 1:b]) + x[b:]
+
+    def spec(sp):
+        k = sp[0]
+        if k in ("in", "notin"):
+            return (k, tuple(mapped(v) if isinstance(v, str) else v for v in sp[1]))
+        if k == "notany":
+            return (k, tuple(spec(p) for p in sp[1]))
+        return sp
+
+    for inp, pool in zip(t["inputs"], t["pools"]):
+        if inp["kind"] == "string":
+            pool[:] = [mapped(v) for v in pool]
+            if inp["values"] is not None:
+                inp["values"] = [tok(x) for x in inp["values"]]
+    for out in t["outputs"]:
+        if out["values"] is not None:
+            out["values"] = [tok(x) for x in out["values"]]
+    for r in t["rules"]:
+        r["i"] = [[tok(x) for x in e] for e in r["i"]]
+        r["o"] = [[tok(x) for x in e] for e in r["o"]]
+        r["spec"] = [spec(sp) for sp in r["spec"]]
+    t["spaced"] = True
+    return t
+
+
 def steer_inputs(t, rng, per_class=2, tries=60):
     """Input tuples probing the table with no / one / several matching rules (when they exist).
     Returns [(tuple, n_matching)]."""
@@ -776,7 +838,16 @@ def input_context(t, tup):
 # --------------------------------------------------------------------------------------------
 # G-XML twin: one decision holding the same table
 # --------------------------------------------------------------------------------------------
-def to_dmn_xml(t, orientation):
+def to_dmn_xml(t, orientation, raw=False):
+    """raw: cell texts are written token by token with one blank between tokens and NO white-space normalisation, so that
+    string literals keep the white space inside them (tables made by space_strings)"""
+    if raw:
+        keep = norm
+        try:
+            globals()["norm"] = lambda x: None if x is None else (" ".join(x) if isinstance(x, (list, tuple)) else x)
+            return to_dmn_xml(t, orientation)
+        finally:
+            globals()["norm"] = keep
     hp, agg = HIT_POLICY_OF[t["marker"]]
     no = len(t["outputs"])
     name = norm(t["name"]) or "Drawn table"
